@@ -51,7 +51,11 @@ type Fault struct {
 	DelayUs int    `json:"delay_us,omitempty"` // close before: pause between the close and the request
 	Block   bool   `json:"block,omitempty"`    // close during: the handler never returns (until teardown)
 
-	ErrText string `json:"err_text,omitempty"` // error
+	ErrText     string `json:"err_text,omitempty"`     // error: the handler's message
+	ErrForm     string `json:"err_form,omitempty"`     // error: plain | wrap | bare | status (see errform.go)
+	ErrCode     int    `json:"err_code,omitempty"`     // error, status form: gRPC code 1..16
+	ErrSentinel string `json:"err_sentinel,omitempty"` // error, wrap/bare form: name of the wrapped/returned error
+	Again       bool   `json:"again,omitempty"`        // error: the handler fails the follow-up request the same way
 
 	Type  int    `json:"type,omitempty"`  // wrongtype, garbage(ttrpc): ttRPC message type byte
 	Level string `json:"level,omitempty"` // undecodable: frame | payload ; garbage: trunk | mux | ttrpc
@@ -140,6 +144,21 @@ func faultGen(t *rapid.T, idx int, slowLeft *int) Fault {
 		}
 	case "error":
 		f.ErrText = fmt.Sprintf("c07 veto by plugin %02d", idx)
+		if x := rapid.SampledFrom(trickyTexts).Draw(t, "err-extra"); x != "" {
+			if rapid.Bool().Draw(t, "err-extra-first") {
+				f.ErrText = x + ": " + f.ErrText
+			} else {
+				f.ErrText += ": " + x
+			}
+		}
+		f.ErrForm = rapid.SampledFrom([]string{"status", "plain", "wrap", "status", "bare", "status", "wrap"}).Draw(t, "err-form")
+		switch f.ErrForm {
+		case "status":
+			f.ErrCode = rapid.SampledFrom([]int{8, 4, 1, 14, 13, 10, 2, 3, 5, 6, 7, 9, 11, 12, 15, 16}).Draw(t, "err-code")
+		case "wrap", "bare":
+			f.ErrSentinel = rapid.SampledFrom(sentinelNames).Draw(t, "err-sentinel")
+		}
+		f.Again = rapid.Bool().Draw(t, "err-again")
 	case "wrongtype":
 		f.Type = rapid.SampledFrom([]int{0, 1, 3, 4, 0x7f, 0xff}).Draw(t, "type")
 	case "undecodable":
